@@ -184,7 +184,12 @@ func (repo *StoragePeerRepository) Load(ctx context.Context) error {
 		return errors.Wrap(err, "Failed to read peers count")
 	}
 
-	// Reset
+	// Reset. The count is only used to size the list, so don't trust it beyond the number of
+	// peers that could be in the remaining data.
+	const minPeerSize = 12 // address size, score, and time
+	if count < 0 || int(count) > buffer.Len()/minPeerSize {
+		count = int32(buffer.Len() / minPeerSize)
+	}
 	repo.list = make(PeerList, 0, count)
 
 	// Parse peers
@@ -263,10 +268,17 @@ func readPeer(r io.Reader, version uint8) (Peer, error) {
 		return result, err
 	}
 
-	addressData := make([]byte, addressSize)
-	_, err := io.ReadFull(r, addressData) // Read until string terminator
+	if addressSize < 0 {
+		return result, errors.New("Negative address size")
+	}
+
+	// Read without allocating more than is actually available.
+	addressData, err := io.ReadAll(io.LimitReader(r, int64(addressSize)))
 	if err != nil {
 		return result, err
+	}
+	if len(addressData) != int(addressSize) {
+		return result, io.ErrUnexpectedEOF
 	}
 	result.Address = string(addressData)
 
